@@ -293,13 +293,16 @@ impl<'r> Gen<'r> {
             "0xD800", "55296", "57343", "0xDFFF", "0x10FFFF", "0x110000",
         ];
         const FLOATS: [&str; 10] = ["1.5", "0.0", "1e10", "1e400", "3.5e38f32", "1f64", "1e-400", "123456789012345678901234567890.0", "1.0e0", "2.5f32"];
-        const STRS: [&str; 72] = [
+        const STRS: [&str; 86] = [
             "", "0", "-1", "-128", "-129", "255", "256", "1e400", "NaN", "inf", "-inf", "1.5", "abc", "a::b", "::a", "Vec<u8>", "pub(crate)", "pub", "where T: Clone",
             "T: Clone, U: Copy", "[1, 2]", "[\"a\", \"b\"]", "[1, x]", "1..2", "fn()", "|x| x", "true", "false", "x", "xy", " ", "a b", "1 2", "snake_case", "PascalCase",
             "r#type", "self", "a,b,c", "a, b,", "é", "0x1ff", "0b1_0000_0000", "1_000", "300u8", "0x10", "-0x81", "+5", "[u8; 4]", "fn(u8) -> u8", "impl Clone", "_", "m!()", "!", "(u8)",
             "*const u8", "&'a str", "[u8]", "dyn Clone + Send", "(u8, u16)", "T: Clone", "[0x2]", "[0.5, 0x2]", "b'a'", "a + b; c",
             // contents that do not even tokenize
             "Vec<(u8, u16>", "foo(1, 2", "[1, 2", "T: Fn(u8", "std\\\\mem", "'", "0x", "a )",
+            // where std's alphabetic / alphanumeric / numeric classes and the identifier grammar (XID_Start / XID_Continue) disagree,
+            // case mappings that change length, combining marks, joiners
+            "x\u{b2}", "\u{24d0}bc", "n\u{bd}", "\u{2460}", "\u{301}a", "a\u{301}", "\u{1c5}", "\u{fb01}", "\u{65e5}\u{672c}", "a\u{200d}b", "\u{2118}", "a\u{b7}b", "\u{130}", "\u{df}",
         ];
         const EXPRS: [&str; 64] = [
             "[1, 2, 3]", "[\"a\", \"b\"]", "[1, \"a\"]", "[]", "[300, 1]", "[-1]", "[1u8, 2u64]", "a::b", "::a", "foo(1)", "1..2", "..", "(1)", "{ 1 }", "|x| x", "&x", "x as u8", "1 + 2",
@@ -635,7 +638,17 @@ impl<'r> Gen<'r> {
         }
         // unknown names
         while self.mistake(self.cfg.allow.unknown && !fields.iter().any(|f| f.flatten && matches!(f.ty, Ty::Map { .. })), 10) {
-            let base = self.rng.pick(&["zz", "qq", "nope", "aa", "longNam", "inne", "r#type", "r#a", "x::a", "::zz", "crate", "self", "\u{e9}t\u{e9}", "super::x", "Self"]).to_string();
+            let mut base = self.rng.pick(&["zz", "qq", "nope", "aa", "longNam", "inne", "r#type", "r#a", "x::a", "::zz", "crate", "self", "\u{e9}t\u{e9}", "super::x", "Self"]).to_string();
+            // a third of the time: a near miss of one of this level's own names (another case convention, a
+            // stray or missing underscore, a typo) - which may well be a required field that is absent
+            if !fields.is_empty() && !fields.iter().any(|f| f.flatten) && self.rng.pct(33) {
+                let of = fields[self.rng.below(fields.len())].name;
+                let how = self.rng.below(7);
+                let cand = near_miss(of, how);
+                if syn::parse_str::<syn::Ident>(&cand).is_ok() && !fields.iter().any(|f| f.name == cand || f.rust == cand) {
+                    base = cand;
+                }
+            }
             let form = match self.rng.below(3) {
                 0 => Form::Word,
                 1 => Form::NV(Value::Int("1".into())),
@@ -657,6 +670,45 @@ impl<'r> Gen<'r> {
             self.rng.shuffle(&mut out);
         }
         out
+    }
+}
+
+/// A name one slip away from `name`.
+fn near_miss(name: &str, how: usize) -> String {
+    let cs: Vec<char> = name.chars().collect();
+    if cs.is_empty() {
+        return String::new();
+    }
+    match how {
+        0 => cs[0].to_uppercase().chain(cs[1..].iter().copied()).collect(),
+        1 => {
+            let at = (cs.len() + 1) / 2;
+            cs[..at].iter().copied().chain(std::iter::once('_')).chain(cs[at..].iter().copied()).collect()
+        }
+        2 => {
+            if cs.contains(&'_') {
+                let mut out = String::new();
+                let mut up = false;
+                for c in cs {
+                    if c == '_' {
+                        up = true;
+                    } else if up {
+                        out.extend(c.to_uppercase());
+                        up = false;
+                    } else {
+                        out.push(c);
+                    }
+                }
+                out
+            } else {
+                let n = cs.len() - 1;
+                cs[..n].iter().copied().chain(cs[n].to_uppercase()).collect()
+            }
+        }
+        3 => name.to_uppercase(),
+        4 => format!("{}_", name),
+        5 => cs[..cs.len() - 1].iter().collect(),
+        _ => cs.iter().copied().chain(std::iter::once(cs[cs.len() - 1])).collect(),
     }
 }
 
